@@ -221,12 +221,27 @@ def failing_workers(case):
     return [k for k, sc in enumerate(case['scripts']) if 'F' in sc.split(';')]
 
 
-def script_emits(script):
-    """model emissions of a script: print(s) = write(s), write('\\n'); nothing after F"""
+def burst_texts(script_k, op):
+    """the strings of an R (logger burst) / T (print+flush burst) op of worker script_k"""
+    n, base = (int(x) for x in op[1:].split(':'))
+    word = 'burst' if op[0] == 'R' else 'line'
+    return ['%s @@%d.%d@' % (word, script_k, base + i) for i in range(n)]
+
+
+def script_emits(script, k=0):
+    """model emissions of a script: print(s) = write(s), write('\\n'); nothing after F; a final K = dies hard there"""
     out = []
     for op in (script.split(';') if script else []):
         c, arg = op[0], op[1:]
-        if c == 'L':
+        if c == 'R':
+            out += ['l' + hx(t) for t in burst_texts(k, op)]
+        elif c == 'T':
+            for t in burst_texts(k, op):
+                out += ['o' + hx(t), 'o0a', 'O']
+        elif c == 'K':
+            out.append('K')
+            break
+        elif c == 'L':
             out.append('l' + arg)
         elif c == 'W':
             out.append('o' + arg)
@@ -250,25 +265,51 @@ def sched_str(sched):
 
 def run_line(case):
     return 'LOG run n=%d w=%s sched=%s cof=%d fail=%s' % (
-        len(case['scripts']), ';'.join(script_emits(s) for s in case['scripts']), sched_str(case['sched']),
+        len(case['scripts']), ';'.join(script_emits(s, k) for k, s in enumerate(case['scripts'])), sched_str(case['sched']),
         1 if case.get('cof', True) else 0, ','.join(str(k) for k in failing_workers(case)))
 
 
-def emitted(case):
-    """marker -> channel ('log' | 'out' | 'err') for everything the scripts emit (non-blank), and the markers of
-    blank writes are not expected anywhere"""
+def emitted(case, optional=None):
+    """marker -> channel ('log' | 'out' | 'err') for everything the scripts emit (non-blank); the markers of
+    blank writes are not expected anywhere.  A worker that kills itself (K) has emitted what precedes the K; its
+    stdout/stderr writes that no explicit flush handed over before the kill are legitimately lost: they go to
+    `optional` (may be absent, never twice) instead."""
     want = {}
-    for script in case['scripts']:
+    for k, script in enumerate(case['scripts']):
+        pend = {'out': [], 'err': []}
+        killed = False
         for op in (script.split(';') if script else []):
             c, arg = op[0], op[1:]
             if c == 'F':
                 break
-            if c in 'LWPXQ':
+            if c == 'K':
+                killed = True
+                break
+            if c == 'R':
+                for t in burst_texts(k, op):
+                    want[MARK.search(t).group(0)] = 'log'
+            elif c == 'T':
+                for t in burst_texts(k, op):
+                    want[MARK.search(t).group(0)] = 'out'
+            elif c == 'O':
+                pend['out'] = []
+            elif c == 'E':
+                pend['err'] = []
+            elif c in 'LWPXQ':
                 s = bytes.fromhex(arg).decode('utf-8')
                 if c != 'L' and is_blank(s):
                     continue
+                ch = {'L': 'log', 'W': 'out', 'P': 'out', 'X': 'err', 'Q': 'err'}[c]
                 for m in MARK.findall(s):
-                    want[m] = {'L': 'log', 'W': 'out', 'P': 'out', 'X': 'err', 'Q': 'err'}[c]
+                    want[m] = ch
+                    if ch != 'log':
+                        pend[ch].append(m)
+        if killed:
+            for ch in ('out', 'err'):
+                for m in pend[ch]:
+                    del want[m]
+                    if optional is not None:
+                        optional[m] = ch
     return want
 
 
@@ -276,7 +317,8 @@ def delivery_monitor(case, delivered, where, must=None, exit_how='returned'):
     """delivered: [(levelname, message)] seen by the caller's handler at the moment run_tasks exited.
     must: the workers whose outcome the coordinator had consumed by then (None = all: normal return) — everything
     they emitted must have been delivered exactly once; anything of the others at most once."""
-    want = emitted(case)
+    optional = {}
+    want = emitted(case, optional)
     seen = {}
     for level, msg in delivered:
         if level == 'INFO' and msg.startswith(OUT_PRE):
@@ -299,7 +341,10 @@ def delivery_monitor(case, delivered, where, must=None, exit_how='returned'):
                    else f'was delivered as {got}')
             v.append(f'{name[ch]} {m} of task {k} {how} by the time run_tasks {exit_how} ({where})')
     for m in seen:
-        if m not in want:
+        if m in optional:
+            if seen[m] != [optional[m]]:
+                v.append(f'unflushed {name[optional[m]]} {m} of a killed task was delivered as {seen[m]} ({where})')
+        elif m not in want:
             v.append(f'message {m} delivered but never emitted ({where})')
     return v
 
@@ -544,6 +589,24 @@ def gen_real_cases(rng, tier):
             'L' + hx('slow start @@2.0@') + ';S2500;L' + hx('slow end @@2.1@'),
         ]
         cases.append(dict(kind='real', be=be, scripts=scripts, last=1, cof=False))
+    # workers that die hard (SIGKILL themselves) after N logger records, other tasks alongside, continue_on_failure=True:
+    # every logger record (and every explicitly flushed print) emitted before the kill must arrive exactly once
+    for be in (('fork', 'spawn') if tier == 'thorough' else ('fork',)):
+        cases.append(dict(kind='real', be=be, last=1, label='tasks 0 and 2 kill themselves after 1 and 50 logger records',
+                          scripts=['R1:0;P' + hx('never flushed @@0.900@') + ';K',
+                                   'L' + hx('alongside @@1.0@') + ';P' + hx('alongside out @@1.1@') + ';S300;L' + hx('alongside end @@1.2@'),
+                                   'R50:0;K']))
+        cases.append(dict(kind='real', be=be, last=2, label='task 1 kills itself after a flushed print and 5 logger records',
+                          scripts=['L' + hx('quick @@0.0@'),
+                                   'S200;P' + hx('flushed before the kill @@1.900@') + ';O;R5:0;W' + hx('never flushed @@1.901@') + ';K',
+                                   'L' + hx('slow start @@2.0@') + ';S600;P' + hx('slow out @@2.1@')]))
+    # a burst: thousands of logger records in a tight loop next to thousands of flushed prints (more than any polling
+    # round drains at once): all delivered exactly once, in order per task
+    for be in (('fork', 'spawn') if tier == 'thorough' else ('fork',)):
+        nb = rng.choice([3000, 3500, 4000])
+        cases.append(dict(kind='real', be=be, last=0, label='burst of %d logger records and 2000 flushed prints' % nb,
+                          scripts=['R%d:0' % nb, 'T2000:0',
+                                   'L' + hx('small @@2.0@') + ';P' + hx('small out @@2.1@')]))
     if tier == 'thorough':
         extra = []
         for c in cases:
@@ -722,7 +785,9 @@ RULE = ('(a) write/flush sequences on LoggerFileProxy with blank, near-blank and
         'under a schedule that decides what becomes visible before a wait, inside its executor.wait and between result drain '
         'and second log drain, with a chosen last-finishing task; (c) real fork/spawn runs with each task in turn sleeping '
         'longest; about a third of the (b) cases and one real fork run (thorough: also spawn) have a failing task under '
-        'continue_on_failure=False, so that run_tasks exits by LabError in the round that yields the failure. Non-trivial = (a) sequences with >= 2 flushes and >= 2 non-blank writes, (b) cases in which, in the round '
+        'continue_on_failure=False, so that run_tasks exits by LabError in the round that yields the failure; real fork runs '
+        '(thorough: also spawn) with tasks that SIGKILL themselves after 1 / 5 / 50 logger records next to ordinary tasks, and one '
+        'with a burst of 3000-4000 logger records in a tight loop next to 2000 flushed prints. Non-trivial = (a) sequences with >= 2 flushes and >= 2 non-blank writes, (b) cases in which, in the round '
         'that consumed the last result before the exit (return or LabError), a record reached the log queue after that round\'s first drain; distinct by protocol line')
 
 CORPUS_PROXY = [
@@ -822,7 +887,7 @@ def eval_fake(cases, results, driver, out):
 
 
 def eval_real(cases, reps, driver, out):
-    lines = ['LOG run n=%d w=%s sched=%s' % (len(c['scripts']), ';'.join(script_emits(s) for s in c['scripts']),
+    lines = ['LOG run n=%d w=%s sched=%s' % (len(c['scripts']), ';'.join(script_emits(s, k) for k, s in enumerate(c['scripts'])),
                                             sched_str([[[['f', w] for w in range(len(c['scripts']))], [], []], [[], [], []]]))
              for c in cases]
     model = driver.run_lines(lines)
@@ -848,18 +913,33 @@ def eval_real(cases, reps, driver, out):
         if code != '1':
             out['raw'].append((f'run_tasks did not exit normally on the real {c["be"]} backend: {rep["status"]}', c))
             continue
-        for what in delivery_monitor(c, delivered, 'real %s backend, task %d finishes last' % (c['be'], c['last'])):
+        if any('K' in sc.split(';') for sc in c['scripts']):
+            out['dist']['real_with_killed_worker'] += 1
+        if any(op[:1] in 'RT' and int(op[1:].split(':')[0]) >= 1000 for sc in c['scripts'] for op in sc.split(';')):
+            out['dist']['real_burst'] += 1
+        where = 'real %s backend, %s' % (c['be'], c.get('label') or 'task %d finishes last' % c['last'])
+        alarms = delivery_monitor(c, delivered, where)
+        for what in alarms[:20]:
             out['raw'].append((what, c))
+        if len(alarms) > 20:
+            out['raw'].append(('%d emitted messages in all were not delivered exactly once (%s)' % (len(alarms), where), c))
         # per-worker order and content against the model (interleaving between workers is the OS's choice)
-        if per_worker(delivered) != model_per_worker(m):
-            out['disagreements'].append(dict(line=line, case=c, real=per_worker(delivered), model=model_per_worker(m)))
+        rw, mw = per_worker(delivered), model_per_worker(m)
+        if rw != mw:
+            diff = {}
+            for k in sorted(set(rw) | set(mw)):
+                a, b = rw.get(k, []), mw.get(k, [])
+                if a != b:
+                    i = next((i for i, (x, y) in enumerate(zip(a, b)) if x != y), min(len(a), len(b)))
+                    diff[k] = dict(real_len=len(a), model_len=len(b), first_difference_at=i, real=a[i:i + 2], model=b[i:i + 2])
+            out['disagreements'].append(dict(line=line[:300], case=c, per_worker_difference=diff))
 
 
 def new_out():
     return dict(evaluations=0, raw=[], disagreements=[], nontrivial=set(), samples=[], errors=[],
                 dist=dict(proxy_sequences=0, proxy_blank_writes=0, proxy_flushes=0, fake_cases=0, fake_fork=0, fake_spawn=0,
                           fake_workers={}, fake_records_delivered=0, fake_second_drain_needed=0, fake_with_failing_task=0,
-                          fake_continue_on_failure_false=0, fake_exit_by_LabError=0, real_exit_by_LabError=0,
+                          fake_continue_on_failure_false=0, fake_exit_by_LabError=0, real_exit_by_LabError=0, real_with_killed_worker=0, real_burst=0,
                           fake_left_on_queue=0, real_fork=0, real_spawn=0, whitespace_codepoints_checked=0))
 
 
@@ -971,7 +1051,9 @@ def finish(ctx, out, wd, shrink_it):
                      'always before the result (both are synchronous Manager-queue puts in that order); checked against real '
                      'fork and spawn runs in (c)',
                      'all tasks of a case are independent and max_workers >= number of tasks, so every worker is running from the first wait on',
-                     'a worker that is killed (TaskDiedError) hands over no result; the property and the model speak about workers that do'],
+                     'a worker that dies hard (SIGKILL) is covered on the real backends only (the fake-process layer runs no dying '
+                     'worker): every logger record and every explicitly flushed write before the death must arrive once; captured output '
+                     'that no flush had handed over is legitimately lost (model: diedRecords)'],
         explanation='(a) real LoggerFileProxy vs LOG proxy: final bufs and every logger_func message; monitor: messages = the non-empty '
                     'groups of non-blank writes between flushes. (b) real coordinator loop + ProcessRunner.wait + _subprocess_func over the '
                     'fake-process layer: sequence of (level, message) at the parent\'s handler when run_tasks returns vs LOG run; monitor: '
